@@ -1,6 +1,6 @@
 """Source of truth for MANIFEST.json (run: python -m vlib.mkmanifest)."""
 
-REPO_FIX_COMMITS = ["04f98b2", "9ce180e", "cfc2ed2", "1d8dc7e", "8ef3efb", "a7c5d9c", "2fb9873", "812fbc2"]
+REPO_FIX_COMMITS = ["04f98b2", "9ce180e", "cfc2ed2", "1d8dc7e", "8ef3efb", "a7c5d9c", "2fb9873", "812fbc2", "343713a"]
 
 CHECKS = {
     "C14": {
@@ -8,6 +8,30 @@ CHECKS = {
         "text": "Every string up to length 5 (quick) / 6 (thorough) over a 13-symbol delimiter alphabet, bare and behind 'http://', plus tens of thousands of grammar-built hostile URLs and unicode strings, are parsed and compared with an independent reading; running time is measured on 26 repetition shapes up to 1e5 characters. Exploration: absence is shown only inside those bounds.",
         "note": "Trusts vlib/refurl.py (independent splitter), the idna package, CPython re; time clause uses CPU time with an absolute-and-relative threshold.",
         "design_ref": "DESIGN.md section 4, C14",
+    },
+    "C08": {
+        "technique": "bounded-exhaustive (SAN name, host) pair enumeration + Hypothesis SAN lists / IP spellings / pin mutations; oracle: independent three-valued RFC 6125 reference (strict subset, liberal superset) and hashlib digest comparison",
+        "text": "All pairs of names with <= 2 labels (quick) / <= 3 labels (thorough, 2.1e6 pairs x case variants) over the 11-label alphabet, generated SAN lists with IP and commonName variants, and tens of thousands of pins derived from true digests are decided against a reference that is independent of urllib3's matcher; both directions (must-accept, must-reject) are asserted.",
+        "note": "Trusts vlib/refname.py, stdlib ipaddress and hashlib. Partial wildcards and certificates with a malformed multi-wildcard entry ahead of the matching entry are 'either'.",
+        "design_ref": "DESIGN.md section 4, C08",
+    },
+    "C16": {
+        "technique": "model-based testing: exhaustive operation sequences (<=3 quick, <=4 thorough over a 41-op alphabet) + Hypothesis-generated sequences (<=30 ops, all source types) against a reference multimap, full observation of every live dict after every step",
+        "text": "Every short mutation sequence and many long random ones are run on real HTTPHeaderDict objects and on a small reference multimap; after each step each live dict (including copies/unions taken earlier) is compared through lookup under several casings, iteration orders, getlist, len, membership, equality and repr round trip.",
+        "note": "Trusts the reference multimap in props/c16.py; sources with case-colliding keys are only given to add-based entry points (documented undefined otherwise).",
+        "design_ref": "DESIGN.md section 4, C16",
+    },
+    "C19": {
+        "technique": "exhaustive enumeration of the (total,connect,read) x placement x connect-duration x history x server-behaviour grid on an in-memory socket with a virtual clock; oracle: independently computed min() arithmetic on what the socket was told; Hypothesis floats for bound/monotonicity relations",
+        "text": "The whole valid grid named in the property (125 value triples x 5 placements x 7 connect durations x fresh/reused/second request x answering/silent server) is executed through the real pool/connection/http.client stack; the timeout passed to connect and the one in force when the response wait starts are read off the fake socket and compared with the reference; invalid values are tried at every entry point.",
+        "note": "Trusts vlib/fakenet.py (socket shim + virtual clock). Decides the values handed to the socket, not the kernel honouring them.",
+        "design_ref": "DESIGN.md section 4, C19",
+    },
+    "C20": {
+        "technique": "exhaustive hostile names/filenames (<=2 / <=3 symbols) in every input form + Hypothesis field lists; oracle: strict independent multipart parser and independently computed WHATWG escaping, byte-exact part headers and data",
+        "text": "Encoded bodies are parsed by a strict RFC 7578 parser using the boundary named in the returned content type; part count, order, the exact Content-Disposition/Content-Type/extra header lines and the data bytes are compared with what the field list specifies.",
+        "note": "Trusts vlib/wire.py parse_multipart and stdlib mimetypes; names/values are UTF-8 encodable; data never contains the boundary (by construction).",
+        "design_ref": "DESIGN.md section 4, C20",
     },
 }
 
